@@ -148,6 +148,21 @@ WhyFilesT(fs, tolerate) ==
   ELSE ""
 WhyFiles(fs) == WhyFilesT(fs, 0)
 
+\* ------------------------------------------------------------ frame locality
+\* The output of frame f of a trajectory is the tessellation of THAT frame: it is what the same
+\* routine writes for the one-frame trajectory holding frame f alone (`one`, a files record with a
+\* single frame), whatever the other frames of the trajectory are (their box, their particle
+\* number, their positions).  Rows are compared as bags of (neighbour, weight) entries - the order
+\* of the entries inside a row is not part of the format - weights and volumes to one quantum.
+FrameLocalAt(fs, f, one) ==
+  /\ NF(one) = 1 /\ one.N[1] = fs.N[f]
+  /\ \A i \in Particles(fs, f) :
+       /\ Cn(fs, f, i) = Cn(one, 1, i)
+       /\ SortBag(Ids(fs, f, i)) = SortBag(Ids(one, 1, i))
+       /\ LET a == SortBag(Wts(fs, f, i)) b == SortBag(Wts(one, 1, i)) IN
+          Len(a) = Len(b) /\ \A x \in 1..Len(a) : Abs(a[x] - b[x]) <= 1
+       /\ Abs(Vol(fs, f, i) - Vol(one, 1, i)) <= 1
+
 \* ------------------------------------------------------------ hand-off to read_neighbors
 \* One call read_neighbors(f, nparticle, Nmax) on an open handle consumes one frame:
 \* header + nparticle rows.  Result: matrix nparticle x (1 + width); column 1 = cn (cut to
